@@ -25,6 +25,7 @@ func runC07(r *Run, verifDir string) {
 	}
 	// identify the pieces
 	var readCall, unmarshalCall, cnbCall, growCall *ssa.Call
+	readBufArg := 0 // index of the buffer among the read call's arguments
 	allInstrs(fn, func(in ssa.Instruction) {
 		c, ok := in.(*ssa.Call)
 		if !ok {
@@ -34,6 +35,8 @@ func runC07(r *Run, verifDir string) {
 		switch {
 		case c.Call.IsInvoke() && c.Call.Method.Name() == "Read":
 			readCall = c
+		case id.pkg == "io" && (id.name == "ReadFull" || id.name == "ReadAtLeast") && len(c.Call.Args) >= 2:
+			readCall, readBufArg = c, 1
 		case id.is(ttlvPath, "", "UnmarshalTTLV"):
 			unmarshalCall = c
 		case id.is(ttlvPath, "", "computeNeededBytes"):
@@ -48,13 +51,102 @@ func runC07(r *Run, verifDir string) {
 	r.Rule("C07.S4", "computeNeededBytes: 8 until the header is complete, then 8 + padded length read from header bytes 4..8", 2)
 	r.Rule("C07.S5", "Send writes the MarshalTTLV encoding and never drops a Write error", 1)
 	r.Rule("C07.S6", "index/slice safety of Recv (deferred from C02.R4): cap(buf) >= need before slicing, read < need on the loop edge", 3)
-	if readCall == nil || unmarshalCall == nil || cnbCall == nil {
-		r.Unk("C07.S1", "ttlv.Stream.Recv/shape", fn.Pos(), "Read / UnmarshalTTLV / computeNeededBytes calls not found (read=%v unmarshal=%v needed=%v)", readCall != nil, unmarshalCall != nil, cnbCall != nil)
+	// the announced extent: the result of computeNeededBytes(buf[:read+n]), or — when that helper was inlined into
+	// Recv — the value `8 if read+n < 8 else 8 + ttlvReader{buf: buf[:read+n]}.paddedLen()`
+	var needVal, needSrc ssa.Value
+	var needPos token.Pos
+	var needBlock *ssa.BasicBlock
+	inlinedNeed := false
+	if cnbCall != nil {
+		needVal, needPos, needBlock = cnbCall, cnbCall.Pos(), cnbCall.Block()
+		if len(cnbCall.Call.Args) > 0 {
+			needSrc = cnbCall.Call.Args[0]
+		}
+	} else {
+		allInstrs(fn, func(in ssa.Instruction) {
+			ph, ok := in.(*ssa.Phi)
+			if !ok || len(ph.Edges) != 2 || needVal != nil {
+				return
+			}
+			for i, e := range ph.Edges {
+				k, isK := constIntVal(e)
+				if !isK || k != 8 {
+					continue
+				}
+				sum, ok := ph.Edges[1-i].(*ssa.BinOp)
+				if !ok || sum.Op != token.ADD {
+					continue
+				}
+				var pc *ssa.Call
+				for _, pr := range [][2]ssa.Value{{sum.X, sum.Y}, {sum.Y, sum.X}} {
+					if k8, isK8 := constIntVal(pr[0]); isK8 && k8 == 8 {
+						if c, isC := pr[1].(*ssa.Call); isC && callID(&c.Call).is(ttlvPath, "ttlvReader", "paddedLen") {
+							pc = c
+						}
+					}
+				}
+				if pc == nil {
+					continue
+				}
+				// the reader literal's buffer
+				al, ok := pc.Call.Args[0].(*ssa.Alloc)
+				if !ok {
+					continue
+				}
+				var src ssa.Value
+				lits := []*ssa.Alloc{al}
+				for _, ref := range *al.Referrers() {
+					// `hdr := ttlvReader{...}`: the literal is built in a temporary and copied
+					if st, ok := ref.(*ssa.Store); ok && st.Addr == ssa.Value(al) {
+						if ld, ok := st.Val.(*ssa.UnOp); ok && ld.Op == token.MUL {
+							if a2, ok := ld.X.(*ssa.Alloc); ok {
+								lits = append(lits, a2)
+							}
+						}
+					}
+				}
+				for _, lit := range lits {
+					for _, ref := range *lit.Referrers() {
+						if fa, ok := ref.(*ssa.FieldAddr); ok {
+							for _, r2 := range *fa.Referrers() {
+								if st, ok := r2.(*ssa.Store); ok && st.Addr == ssa.Value(fa) {
+									src = st.Val
+								}
+							}
+						}
+					}
+				}
+				// the constant edge is taken when the header is incomplete: `x < 8` on the way to it
+				hdrIncomplete := false
+				pred := ph.Block().Preds[i]
+				conds := dominatingConds(pred)
+				if cond, isTrue, ok := edgeTaken(pred, ph.Block()); ok {
+					conds = append(conds, domCond{cond, isTrue, pred})
+				}
+				for _, dc := range conds {
+					if bo, ok := dc.cond.(*ssa.BinOp); ok {
+						if k8, isK8 := constIntVal(bo.Y); isK8 && k8 == 8 && ((bo.Op == token.LSS && dc.outcome) || (bo.Op == token.GEQ && !dc.outcome)) {
+							if sl, isSl := src.(*ssa.Slice); isSl && (bo.X == sl.High) {
+								hdrIncomplete = true
+							} else if y, isLen := lenOperand(bo.X); isLen && src != nil && sameSlice(y, src) {
+								hdrIncomplete = true
+							}
+						}
+					}
+				}
+				if src != nil && hdrIncomplete {
+					needVal, needSrc, needPos, needBlock, inlinedNeed = ph, src, pc.Pos(), ph.Block(), true
+				}
+			}
+		})
+	}
+	if readCall == nil || unmarshalCall == nil || needVal == nil {
+		r.Unk("C07.S1", "ttlv.Stream.Recv/shape", fn.Pos(), "Read / UnmarshalTTLV / computeNeededBytes calls not found (read=%v unmarshal=%v needed=%v)", readCall != nil, unmarshalCall != nil, needVal != nil)
 		return
 	}
 	// need: the phi fed by the constant 8 and by computeNeededBytes
 	var needPhi *ssa.Phi
-	for _, ref := range *cnbCall.Referrers() {
+	for _, ref := range *needVal.Referrers() {
 		if ph, ok := ref.(*ssa.Phi); ok {
 			for _, e := range ph.Edges {
 				if k, ok := constIntVal(e); ok && k == 8 {
@@ -68,7 +160,7 @@ func runC07(r *Run, verifDir string) {
 		return
 	}
 	// --- S1
-	rs, ok := readCall.Call.Args[0].(*ssa.Slice)
+	rs, ok := readCall.Call.Args[readBufArg].(*ssa.Slice)
 	switch {
 	case !ok:
 		r.Bad("C07.S1", "ttlv.Stream.Recv/read-extent", readCall.Pos(), "Read is not handed a bounded slice of the buffer")
@@ -81,7 +173,7 @@ func runC07(r *Run, verifDir string) {
 	switch {
 	case !ok:
 		r.Bad("C07.S1", "ttlv.Stream.Recv/decode-extent", unmarshalCall.Pos(), "the decoder is not handed a bounded slice")
-	case us.Low != nil || us.High != ssa.Value(cnbCall):
+	case us.Low != nil || us.High != needVal:
 		r.Bad("C07.S1", "ttlv.Stream.Recv/decode-extent", unmarshalCall.Pos(), "the decoder is not handed exactly buf[:need]")
 	default:
 		r.OK("C07.S1", "ttlv.Stream.Recv/decode-extent", unmarshalCall.Pos(), "UnmarshalTTLV(buf[:need])")
@@ -103,14 +195,14 @@ func runC07(r *Run, verifDir string) {
 	}
 	// S1 (third clause): the extent is derived from everything received so far, buf[:read+n]
 	if readNext != nil {
-		cs, ok := cnbCall.Call.Args[0].(*ssa.Slice)
+		cs, ok := needSrc.(*ssa.Slice)
 		switch {
 		case !ok:
-			r.Bad("C07.S1", "ttlv.Stream.Recv/extent-source", cnbCall.Pos(), "the announced extent is not computed from a prefix of the receive buffer")
+			r.Bad("C07.S1", "ttlv.Stream.Recv/extent-source", needPos, "the announced extent is not computed from a prefix of the receive buffer")
 		case cs.Low != nil || cs.High != ssa.Value(readNext):
-			r.Bad("C07.S1", "ttlv.Stream.Recv/extent-source", cnbCall.Pos(), "the announced extent is not computed from buf[:read+n], all the bytes received so far: when the transport delivers fewer than 8 bytes in one read the extent falls back to 8 (or is read from the wrong bytes) and the stream is desynchronised")
+			r.Bad("C07.S1", "ttlv.Stream.Recv/extent-source", needPos, "the announced extent is not computed from buf[:read+n], all the bytes received so far: when the transport delivers fewer than 8 bytes in one read the extent falls back to 8 (or is read from the wrong bytes) and the stream is desynchronised")
 		default:
-			r.OK("C07.S1", "ttlv.Stream.Recv/extent-source", cnbCall.Pos(), "computeNeededBytes(buf[:read+n])")
+			r.OK("C07.S1", "ttlv.Stream.Recv/extent-source", needPos, "the extent is computed from buf[:read+n]")
 		}
 	}
 	if readNext == nil {
@@ -118,7 +210,7 @@ func runC07(r *Run, verifDir string) {
 	} else {
 		complete := false
 		for _, dc := range dominatingConds(unmarshalCall.Block()) {
-			if impliesGE(dc.cond, dc.outcome, readNext, cnbCall) {
+			if impliesGE(dc.cond, dc.outcome, readNext, needVal) {
 				complete = true
 			}
 		}
@@ -206,11 +298,11 @@ func runC07(r *Run, verifDir string) {
 			// normalise to `a OP b` with a = need or max
 			x, y, op := unspill(bo.X), unspill(bo.Y), bo.Op
 			mirror := map[token.Token]token.Token{token.LSS: token.GTR, token.LEQ: token.GEQ, token.GTR: token.LSS, token.GEQ: token.LEQ, token.EQL: token.EQL, token.NEQ: token.NEQ}
-			if (isMax(x) && y == ssa.Value(cnbCall)) || func() bool { _, isK := constIntVal(x); return isK && isMax(y) }() {
+			if (isMax(x) && y == needVal) || func() bool { _, isK := constIntVal(x); return isK && isMax(y) }() {
 				x, y, op = y, x, mirror[op]
 			}
 			switch {
-			case x == ssa.Value(cnbCall) && isMax(y):
+			case x == needVal && isMax(y):
 				// need OP max: the edge on which need <= max holds
 				switch op {
 				case token.GTR, token.GEQ:
@@ -243,7 +335,7 @@ func runC07(r *Run, verifDir string) {
 				walk(s)
 			}
 		}
-		walk(cnbCall.Block())
+		walk(needBlock)
 		switch {
 		case nLimit == 0:
 			r.Bad("C07.S3", "ttlv.Stream.Recv/limit", fn.Pos(), "the announced extent is never compared with the configured maximum")
@@ -309,6 +401,8 @@ func runC07(r *Run, verifDir string) {
 		} else {
 			r.Bad("C07.S4", "ttlv.computeNeededBytes", cn.Pos(), "computeNeededBytes no longer has the form `8 while the header is incomplete, else 8 + padded length` (header-incomplete=%v sum=%v)", ok8, okSum)
 		}
+	} else if inlinedNeed {
+		r.OK("C07.S4", "ttlv.computeNeededBytes", needPos, "inlined into Recv: 8 while fewer than 8 bytes were received, else 8 + paddedLen() of a reader over the bytes received")
 	} else {
 		r.Unk("C07.S4", "ttlv.computeNeededBytes", token.NoPos, "anchor missing")
 	}
@@ -476,7 +570,7 @@ func runC07(r *Run, verifDir string) {
 			}
 			thisOK := false
 			for _, f := range facts {
-				if impliesLT(f.cond, f.outcome, readNext, cnbCall) {
+				if impliesLT(f.cond, f.outcome, readNext, needVal) {
 					thisOK = true
 				}
 			}
